@@ -324,7 +324,65 @@ def check_C10(c):
     c.rep.assumptions = ["a repeat that leaves no element is left open (the library has no empty tensors)", "a refusal of a fitting input is accepted"]
 
 
-CHECKS = {"C01": check_C01, "C02": check_C02, "C03": check_C03, "C04": check_C04, "C13": check_C13, "C06": check_C06, "C07": check_C07, "C11": check_C11, "C12": check_C12, "C08": check_C08, "C09": check_C09, "C10": check_C10}
+def mask_consts(q, mode):
+    suffix = "-q" if q else "-t"
+    if mode == "iter":
+        return dict(ShapeSetId=S("iter" + suffix), Mode=S("iter"), MaxMask=6 if q else 8)
+    if mode == "inspect":
+        return dict(ShapeSetId=S("inspect" + suffix), Mode=S("inspect"), MaxMask=8 if q else 10)
+    return dict(ShapeSetId=S("other" + suffix), Mode=S(mode), MaxMask=6 if q else 8)
+
+
+def check_C15(c):
+    q = c.quick
+    inv = ["TypeOK", "SteppingPartitions", "Emit"]
+    for mode, dts, pals, extra in (("inspect", "float64,int8,string,bool", "ident", []),
+                                   ("pred", "all", "ident,signed", []),
+                                   ("through", "sizes", "ident", []),
+                                   ("ops", "numeric", "ident,signed", ["-ops", "add,sub,mul,div,min,max"]),
+                                   ("iter", "float64,uint16", "ident", [])):
+        cases = c.tlc("MC_mask", "mask-" + mode, mask_consts(q, mode), inv)
+        c.replay("mask-" + mode, cases, dtypes=dts, pals=pals, rotate=(2 if q else 0), extra=extra + (["-oprotate", "2"] if q and extra else []))
+    c.rep.rule = ("TLC enumerates EVERY mask over the elements of a set of shapes (scalar, vectors, matrices, rank 3; <=8 elements quick, "
+                  "<=10 thorough) x {mask counts, any/all (flat and per axis), contiguous runs, edges, clumps, Filled with default and given "
+                  "value}; every masking predicate x soft/hard x prior mask state for all element types; masks through slicing, lazy and "
+                  "physical transposition, materialisation and cloning; masked operands in elementwise arithmetic (values compared at the "
+                  "positions valid in all operands, result mask = union); masked valid/invalid/validity stepping in both directions. The "
+                  "mask of every live tensor is read back with MaskAt at every coordinate and compared with the specification's mask")
+    c.rep.assumptions = ["MaskedValues (floats, tolerance based) is not modelled", "values under masked positions of operation results are unconstrained"]
+
+
+def check_C05(c):
+    q = c.quick
+    inv = ["TypeOK", "ForwardVisitsAll", "Emit"]
+    k = dict(MinRank=0, MaxRank=3 if q else 4, MaxDim=3, MaxDimHi=2, HiRank=3 if q else 4, Ctors={S("C"), S("F")},
+             ViewDepth=1 if q else 2, Mode=S("flat"), Lays={S("C")})
+    if not q:
+        k.update(MaxDim=2)
+    cases = c.tlc("MC_iter", "iter-flat", k, inv)
+    c.replay("iter-flat", cases, dtypes="float64,uint8,string", pals="ident", rotate=1 if q else 0)
+    if not q:
+        k2 = dict(MinRank=1, MaxRank=3, MaxDim=3, MaxDimHi=3, HiRank=4, Ctors={S("C"), S("F")}, ViewDepth=1, Mode=S("flat"), Lays={S("C")})
+        cases = c.tlc("MC_iter", "iter-flat3", k2, inv)
+        c.replay("iter-flat3", cases, dtypes="float64", pals="ident")
+    km = dict(MinRank=1, MaxRank=3, MaxDim=3 if q else 3, MaxDimHi=2, HiRank=3, Ctors={S("C")}, ViewDepth=0, Mode=S("mult"),
+              Lays={S(x) for x in ("C", "T", "Col", "Step", "Row")})
+    cases = c.tlc("MC_iter", "iter-mult", km, ["TypeOK", "Emit"])
+    c.replay("iter-mult", cases, dtypes="float64,int16", pals="ident", rotate=1 if q else 0)
+    # masked stepping: every mask over <= 8 elements
+    mk = mask_consts(q, "iter")
+    cases = c.tlc("MC_mask", "iter-masked", mk, ["TypeOK", "Emit"])
+    c.replay("iter-masked", cases, dtypes="float64,int8", pals="ident", rotate=1)
+    c.rep.rule = ("TLC enumerates every access pattern reachable from shapes of rank 0-4 (incl. all vector-like shapes) by <=1 (thorough 2) "
+                  "slice/transpose steps, row- and column-major, x the call programs {full forward, full reverse, Start, Reset after each k, "
+                  "direction switch after each k, reverse-then-forward after each k} with Coord/Done probes; pairs and triples of equally "
+                  "shaped tensors with different strides for the multi-iterator; every mask over <=6 (thorough 8) elements x valid/invalid/"
+                  "validity stepping programs in both directions. Every return (offset, error, skip count, coordinate, done flag) is compared; "
+                  "an offset is checked arithmetically AND behaviourally (Data()[offset] must be the expected element)")
+    c.rep.assumptions = ["Coord() after exhaustion is not specified and not compared", "the masked multi-iterator's validity stepping is outside the statement"]
+
+
+CHECKS = {"C01": check_C01, "C02": check_C02, "C03": check_C03, "C04": check_C04, "C13": check_C13, "C06": check_C06, "C07": check_C07, "C11": check_C11, "C12": check_C12, "C08": check_C08, "C09": check_C09, "C10": check_C10, "C05": check_C05, "C15": check_C15}
 
 HOOK_COMMITS = []
 NOT_YET = {}
@@ -373,6 +431,14 @@ LEVELS = {
             "technique": "TLC-enumerated assembly structures (MC_assemble over ConcatT/StackT/RepeatT in Tensor.tla) replayed for every element size",
             "text": "bounded exhaustive model checking of the placement of every operand element in the result for every operand count, axis, operand layout and repeat-count vector in bounds; must-reject inputs (non-fitting shapes, wrong number of counts) included",
             "note": "bounded (<=4 operands, rank<=4, dims<=3)"},
+    "C05": {"ref": "DESIGN.md 4 C05",
+            "technique": "TLC-enumerated iterator call programs (MC_iter / MC_mask over Iter.tla, invariant ForwardVisitsAll) replayed on the real iterators",
+            "text": "bounded exhaustive model checking: Iter.tla defines the iterator as a state machine over logical positions; TLC checks that it visits every position once in order and enumerates the access patterns x call programs; every call of every program is executed on the real FlatIterator / FlatMaskedIterator / MultIterator and compared",
+            "note": "bounded (rank<=4, dims<=3, masks<=8 elements)"},
+    "C15": {"ref": "DESIGN.md 4 C15",
+            "technique": "TLC-enumerated mask behaviours (MC_mask: every mask over small shapes; invariant SteppingPartitions) replayed; masks read back with MaskAt",
+            "text": "bounded exhaustive model checking: the specification keeps a mask with the storage so that it travels with its elements by construction; TLC enumerates every mask in bounds and computes counts, runs, edges, filled values, predicate masks (as truth-valued terms) and stepping results; the replayer compares each with the library",
+            "note": "bounded (masks over <=10 elements)"},
     "C01": {"ref": "DESIGN.md 4 C01",
             "technique": "TLC-enumerated behaviours of the TLA+ tensor machine (MC_addr) replayed on the real library",
             "text": "bounded exhaustive model checking: TLC enumerates every shape/constructor/layout in bounds and the complete coordinate->cell table of each; every table entry is executed (At and SetAt) on the real tensor for every element type, with a full snapshot of all storage around each write",
